@@ -32,6 +32,11 @@ func rulesC01(c *Ctx) {
 	ruleC01Tables(c)
 	ruleC01Seek(c)
 	ruleC01Ops(c)
+	// the answer is the same whichever ast.Symbols implementation evaluates the filter: the in-memory store reports a
+	// null field as null
+	ruleC19Null(c)
+	// every set predicate walks a cursor of its own
+	ruleFreshSetCursor(c, "C01.FRESHCURSOR", "boltz", "objectz")
 	ruleNeverWritten(c, "C01.FIELDS", astNodeTypes(c))
 	cts := c.cursorTypes()
 	isCT := map[*types.Named]bool{}
